@@ -371,4 +371,87 @@ theorem scanDown_correct (v : View) (se : Num) (d : List UInt8) :
         · subst hik; exact hm'
         · exact this i (by omega)
 
+/-! ## the values handed to callbacks / iterators / join are the elements of the view, in order -/
+
+theorem applyDet_nil (s : State) : s.applyDet [] = s := rfl
+
+theorem visitRead_value (s : State) (v : View) (d : List UInt8) (k : Nat) (h : s.data? v.buf = some d) :
+    (visitRead s v k).1 = some (decode v.kind (elemAt d v k)) ∧ ∀ b', (visitRead s v k).2.data? b' = s.data? b' := by
+  have ha : s.attached v.buf = true := by unfold State.attached; rw [h]; rfl
+  obtain ⟨hv, hd⟩ := readElem_value s v d k h
+  unfold visitRead
+  rw [if_pos ha]
+  exact ⟨by simp only; rw [hv], hd⟩
+
+/-- ascending visit without adversary: every / some / find / findIndex / forEach / reduce see elements `i, i+1, …` -/
+theorem visitLoop_up_values (v : View) (d : List UInt8) (detAt : Nat) :
+    ∀ (n : Nat) (s : State) (i : Nat) (acc : List (Option Num)), s.data? v.buf = some d →
+      (visitLoop s v false detAt [] i n acc).2 =
+        acc ++ (List.range' i n).map (fun k => some (decode v.kind (elemAt d v k))) := by
+  intro n
+  induction n with
+  | zero => intro s i acc _; simp [visitLoop]
+  | succ n ih =>
+    intro s i acc h
+    obtain ⟨hv, hd⟩ := visitRead_value s v d i h
+    unfold visitLoop; dsimp only
+    simp only [Bool.false_eq_true, if_false, applyDet_nil, ite_self]
+    rw [ih _ _ _ (by rw [hd]; exact h), hv, List.range'_succ, List.map_cons, List.append_assoc]
+    rfl
+
+/-- descending visit without adversary: findLast / findLastIndex / reduceRight see elements `n-1, …, 0` -/
+theorem visitLoop_down_values (v : View) (d : List UInt8) (detAt : Nat) :
+    ∀ (n : Nat) (s : State) (i : Nat) (acc : List (Option Num)), s.data? v.buf = some d →
+      (visitLoop s v true detAt [] i n acc).2 =
+        acc ++ (List.range n).reverse.map (fun k => some (decode v.kind (elemAt d v k))) := by
+  intro n
+  induction n with
+  | zero => intro s i acc _; simp [visitLoop]
+  | succ n ih =>
+    intro s i acc h
+    obtain ⟨hv, hd⟩ := visitRead_value s v d n h
+    unfold visitLoop; dsimp only
+    simp only [if_true, applyDet_nil, ite_self]
+    rw [ih _ _ _ (by rw [hd]; exact h), hv, List.range_succ, List.reverse_append, List.reverse_singleton,
+      List.singleton_append, List.map_cons, List.append_assoc]
+    rfl
+
+/-- **visiting methods, no adversary**: the callback sees exactly the decoded elements of the view, ascending
+(`bwd = false`) or descending (`bwd = true`) -/
+theorem visit_values_eq_spec (s : State) (vi : Nat) (v : View) (d : List UInt8) (bwd : Bool) (detAt : Nat)
+    (hv : s.views[vi]? = some v) (hd : s.data? v.buf = some d) :
+    (opVisit s vi bwd detAt []).1 = .vals (
+      (if bwd then (List.range v.length).reverse else List.range' 0 v.length).map
+        (fun k => some (decode v.kind (elemAt d v k)))) := by
+  unfold opVisit; rw [hv]; dsimp only
+  have ha : s.attached v.buf = true := by unfold State.attached; rw [hd]; rfl
+  have c : ¬ (!s.attached v.buf) = true := by simp [ha]
+  rw [if_neg c]
+  cases bwd with
+  | false => simp only [Bool.false_eq_true, if_false]; rw [visitLoop_up_values v d detAt _ s 0 [] hd]; rfl
+  | true => simp only [if_true]; rw [visitLoop_down_values v d detAt _ s 0 [] hd]; rfl
+
+theorem joinLoop_values (v : View) (d : List UInt8) :
+    ∀ (n : Nat) (s : State) (k : Nat) (acc : List (Option Num)), s.data? v.buf = some d →
+      (joinLoop s v k n acc).2 = acc ++ (List.range' k n).map (fun i => some (decode v.kind (elemAt d v i))) := by
+  intro n
+  induction n with
+  | zero => intro s k acc _; simp [joinLoop]
+  | succ n ih =>
+    intro s k acc h
+    obtain ⟨hv, hd⟩ := visitRead_value s v d k h
+    unfold joinLoop; dsimp only
+    rw [ih _ _ _ (by rw [hd]; exact h), hv, List.range'_succ, List.map_cons, List.append_assoc]
+    rfl
+
+/-- **join / toString / toLocaleString, no adversary**: the joined values are the decoded elements in ascending order -/
+theorem join_values_eq_spec (s : State) (vi : Nat) (v : View) (d : List UInt8) (pe : Bool)
+    (hv : s.views[vi]? = some v) (hd : s.data? v.buf = some d) :
+    (opJoin s vi [] pe).1 = .vals ((List.range' 0 v.length).map (fun i => some (decode v.kind (elemAt d v i)))) := by
+  unfold opJoin; rw [hv]; dsimp only
+  have ha : s.attached v.buf = true := by unfold State.attached; rw [hd]; rfl
+  have c : ¬ ((!s.attached v.buf) && !(pe && v.length == 0)) = true := by simp [ha]
+  rw [if_neg c, applyDet_nil, joinLoop_values v d _ s 0 [] hd]
+  rfl
+
 end GojaModel.C17
